@@ -674,7 +674,12 @@ def install_pools():
     """Rebind the three pool names the repository looks up at call time."""
     import multiprocessing
     multiprocessing.Pool = SimPool
-    import amr_kitchen.chef.chef as chef_mod
+    import importlib
+    chef_mod = importlib.import_module("amr_kitchen.chef.chef")
     chef_mod.Pool = SimPathosPool
-    import amr_kitchen.chk2plt.chk2plt as c2p
+    # NB: the package attribute amr_kitchen.chk2plt.chk2plt is the class of the same name;
+    # the module has to be taken from sys.modules
+    importlib.import_module("amr_kitchen.chk2plt.chk2plt")
+    c2p = sys.modules["amr_kitchen.chk2plt.chk2plt"]
+    assert hasattr(c2p, "write_plt_bin_from_chk")
     c2p.Pool = SimPool
